@@ -135,6 +135,17 @@ theorem FilesOK_nil (res : List Shards) : ∀ (ops : List Op) (env : List Shards
     cases op <;> simp only [fileOKAt]
     intro p rows h; simp [Files.get] at h
 
+/-- **why every process must compile with the driver's view of the files (D25)**: which shards are computed at all depends
+on the set of files consulted.  With shard 0 of a complete-or-nothing cache missing the driver demands the upstream of every
+shard; a worker that consulted the files after shard 0 had been rewritten would demand none of them (and, in the real
+engine, would not even register the upstream tasks the driver then asks it to run).  The engine therefore ships the driver's
+decisions in a frozen compile environment — checked on every run by C08 (`envwritable`). -/
+theorem demand_depends_on_view :
+    let p : Program := ⟨[.const 2 [(1, 1), (2, 2)], .map (.node 0) "inc" .mat, .cache (.node 1) false "a"], .node 2⟩
+    let driver : Files := [(("a", 1), [(3, 4)])]
+    let worker : Files := [(("a", 0), [(2, 2)]), (("a", 1), [(3, 4)])]
+    demand driver p (fun _ => 2) ≠ demand worker p (fun _ => 2) := by decide
+
 example : served [(("a", 0), [(1, 1)]), (("a", 1), [])] "a" false 2 1 = true := by decide
 example : served [(("a", 0), [(1, 1)])] "a" false 2 0 = false := by decide
 example : served [(("a", 0), [(1, 1)])] "a" true 2 0 = true := by decide
